@@ -235,6 +235,9 @@ func cmdCheck(args []string) {
 					tl = 1200
 				}
 			}
+			if mult, _ := strconv.Atoi(os.Getenv("VERIF_TIME_MULT")); mult > 1 {
+				tl *= mult // several checks sharing the machine (the seed matrix): stretch the wall-clock budgets
+			}
 			if tl > 0 {
 				cfg.Deadline = time.Now().Add(time.Duration(tl) * time.Second)
 			}
